@@ -1,6 +1,7 @@
 //! tvharness: runs the real tsrun code on case lines and prints canonical observations.
 use std::io::{self, BufRead, Write};
 
+mod entry;
 mod heap;
 mod json;
 mod life;
@@ -20,6 +21,8 @@ fn main() {
     let mut out = io::BufWriter::new(stdout.lock());
     let f: fn(&str) -> String = match model {
         "path" => path::line,
+        "entry" => entry::line,
+        "roles" => entry::roles_line,
         "heap" => heap::line,
         "life" => life::line,
         "orders" => orders::line,
